@@ -82,8 +82,8 @@ def make_ops(rng, doc, scratch):
             return (f'frequencies({f})', lambda d: d.frequencies(token_categories=f), None)
         return (f'{which}({f})', lambda d: getattr(d, which)(filter_by_categories=f), None)
 
-    def op_misc():
-        w = rng.choice(['metacomments', 'metacomments_key', 'spine_types', 'monophonic', 'iter', 'measures_count', 'first_measure',
+    def op_misc(force=None):
+        w = force or rng.choice(['metacomments', 'metacomments_key', 'spine_types', 'monophonic', 'iter', 'measures_count', 'first_measure',
                         'spine_ids', 'header_nodes', 'voices', 'voices_clean', 'graph_stdout', 'graph_file', 'next', 'leaves',
                         'export_options_reuse', 'spine_count', 'dump_file', 'deprecated_export', 'clone_export', 'match_self',
                         'header_stage', 'deprecated_spine_types', 'tokens_to_encodings', 'partial_iteration'])
@@ -99,17 +99,25 @@ def make_ops(rng, doc, scratch):
                 return s_
             return (f'dump(doc, file, {enc.name})', g, None)
         if w == 'deprecated_export':
-            o = kp.ExportOptions(spine_types=list(types), kern_type=rng.choice(kpx.ENCODINGS),
-                                 token_categories=[c for c in TC if rng.random() < 0.8])
-            import copy
-            o0 = copy.deepcopy(o)
+            from ..model import measures as MM
+            M_ = len(MM.measure_starts(doc))
+            okw = dict(spine_types=[list, tuple][rng.randrange(2)](types), kern_type=rng.choice(kpx.ENCODINGS),
+                       token_categories=[list, set, tuple][rng.randrange(3)](c for c in TC if rng.random() < 0.8))
+            if rng.random() < 0.5 and M_ >= 1:
+                okw['to_measure'] = rng.choice([M_, M_, rng.randint(1, M_), M_ + 1])
+            if rng.random() < 0.3 and M_ >= 1:
+                okw['from_measure'] = rng.randint(1, M_)
+            if rng.random() < 0.4:
+                okw['spine_ids'] = rng.choice([None, sorted(rng.sample(range(n), rng.randint(1, n)))])
+            o = kp.ExportOptions(**okw)
+            o0 = {f: kpx._freeze(getattr(o, f)) for f in kpx.OPT_FIELDS}
 
             def g(d):
                 import warnings
                 with warnings.catch_warnings():
                     warnings.simplefilter('ignore')
                     return kp.export(d, o)
-            return ('export(doc, ExportOptions) [deprecated API, options object compared]', g, ({'options': o}, {'options': o0}))
+            return (f'export(doc, ExportOptions({sorted(okw)})) [options object compared field by field]', g, ({'options': o}, {'options': o0}))
         if w == 'clone_export':
             return ('dumps(doc.clone())', lambda d: kp.dumps(d.clone()), None)
         if w == 'match_self':
@@ -191,6 +199,8 @@ def make_ops(rng, doc, scratch):
     for _ in range(rng.randint(6, 12)):
         r = rng.random()
         ops.append(op_dumps() if r < 0.45 else op_tokens() if r < 0.7 else op_misc())
+    # every history exports once through a caller-owned ExportOptions object (compared field by field afterwards)
+    ops.insert(rng.randrange(len(ops) + 1), op_misc('deprecated_export'))
     return ops
 
 
@@ -202,6 +212,7 @@ def call(fn, d):
 
 
 def one(ctx: Ctx, cs):
+    import kernpy as kp_
     doc, pname = make_doc(cs, None)
     x = doc.text(0)
     ctx.ev()
@@ -247,7 +258,10 @@ def one(ctx: Ctx, cs):
         if holder is not None:
             kw, orig = holder
             for k, v in orig.items():
-                if kw[k] != v:
+                cur = kw[k]
+                if isinstance(cur, kp_.ExportOptions):
+                    cur = {f: kpx._freeze(getattr(cur, f)) for f in kpx.OPT_FIELDS}
+                if cur != v:
                     ctx.violation('argument-mutated', f'call #{i + 1} {desc} modified its {k} argument', case)
         # same call on a fresh import
         fresh, _, _ = kpx.loads(x)
